@@ -770,6 +770,13 @@ impl<'a> Gen<'a> {
             };
             return GExpr::Call("random".into(), vec![bound]);
         }
+        if self.r.chance(1, 70) {
+            // the function that is in the table but not implemented: an error item, whatever its arguments are
+            // (they are not evaluated: a `random` among them draws nothing)
+            let a = self.expr(depth - 1, allow_vars);
+            let b = if self.r.chance(1, 2) { GExpr::Num(*self.r.pick(&[1, 8, 64])) } else { self.expr(depth - 1, allow_vars) };
+            return GExpr::Call("signExt".into(), vec![a, b]);
+        }
         if roll < self.p.p_random + 6 {
             let c = self.expr(depth - 1, allow_vars);
             let a = self.expr(depth - 1, allow_vars);
